@@ -272,10 +272,11 @@ def run_case(case: dict[str, Any]) -> dict[str, Any]:
                 cov['daemon_sequences'] += 1
                 judge(attempts, hid, f'daemon {hid} on {uid} ({inc})', False, False)
             else:
-                # a timer's counters start afresh after every success, and after a final failure the next tick is a fresh run
+                # a timer's counters start afresh after every success (or ignored error): the next tick is a fresh run. A failure for good
+                # (permanent error, retries or timeout exhausted) ends the timer: any later tick is an attempt after the final outcome.
                 cur = []
                 for a in attempts:
-                    if cur and a['call'].get('retry') == 0 and cur[-1]['ret'] is not None and _final_for(ix, hid, cur, default_backoff):
+                    if cur and a['call'].get('retry') == 0 and cur[-1]['ret'] is not None and _done_well(ix, hid, cur):
                         judge(cur, hid, f'timer {hid} on {uid} ({inc})', False, False)
                         cov['timer_sequences'] += 1
                         cur = []
@@ -318,6 +319,14 @@ def _temp_delay(ix: Any, call: dict[str, Any]) -> float | None:
     if atom and atom[0] == 'temp':
         return float(atom[1]) if len(atom) > 1 else 60.0
     return None
+
+
+def _done_well(ix: Any, hid: str, cur: list[dict[str, Any]]) -> bool:
+    last = cur[-1]['ret']
+    if last is None:
+        return False
+    mode = ((ix.specs.get(hid, {}).get('opts') or {}).get('errors') or 'temporary').lower()
+    return last['outcome'] == 'ok' or (last['outcome'] == 'arb' and mode == 'ignored')
 
 
 def _final_for(ix: Any, hid: str, cur: list[dict[str, Any]], default_backoff: float) -> bool:
